@@ -5,15 +5,18 @@
 open Model
 open Glue
 
-let z_of_int (i : int) : z =
-  if i = 0 then Z0 else if i > 0 then Zpos (pos_of_int i) else Zneg (pos_of_int (- i))
-
 let sub1 (s : str) : str = Stdlib.String.sub s 1 (Stdlib.String.length s - 1)
 let sub2 (s : str) : str = Stdlib.String.sub s 2 (Stdlib.String.length s - 2)
 
 (* constants are named after their contents: K_<hex>_<hex>... *)
 let var_name (k : n list) : n list =
   s2l_ascii ("K" ^ Stdlib.String.concat "" (List.map (fun c -> Printf.sprintf "_%x" (int_of_n c)) k))
+
+let ity_of_tok (s : str) : ity =
+  match s with
+  | "i8" -> TI8 | "i16" -> TI16 | "i32" -> TI32 | "i64" -> TI64
+  | "u8" -> TU8 | "u16" -> TU16 | "u32" -> TU32 | "u64" -> TU64
+  | _ -> raise (Bad_case "integer type")
 
 let rec dec_doc (t : str list) : doc * str list =
   match t with
@@ -42,9 +45,18 @@ let rec dec_doc (t : str list) : doc * str list =
       | _ -> raise (Bad_case "object")
     in ents [] r
   | x :: r when Stdlib.String.length x > 1 && x.[0] = 'i' ->
-    (match int_of_string_opt (sub1 x) with
-     | Some i -> (DInt (z_of_int i), r)
-     | None -> raise (Bad_case "int"))
+    (* i<decimal> | i<decimal>:<type>; u64 values exceed OCaml's int: read the digits into N *)
+    let (num, ty) =
+      match Stdlib.String.index_opt x ':' with
+      | Some j -> (Stdlib.String.sub x 1 (j - 1), Some (ity_of_tok (Stdlib.String.sub x (j + 1) (Stdlib.String.length x - j - 1))))
+      | None -> (sub1 x, None) in
+    let neg = Stdlib.String.length num > 0 && num.[0] = '-' in
+    let digits = if neg then sub1 num else num in
+    if digits = "" || not (Stdlib.String.for_all (fun c -> c >= '0' && c <= '9') digits) then raise (Bad_case "int");
+    let z = match n_of_dec digits with
+      | N0 -> Z0
+      | Npos p -> if neg then Zneg p else Zpos p in
+    (DInt (ty, z), r)
   | x :: r when Stdlib.String.length x > 2 && x.[0] = 'd' && (x.[1] = '+' || x.[1] = '-') ->
     (DFloat (x.[1] = '-', s2l_ascii (sub2 x)), r)
   | x :: r when Stdlib.String.length x > 1 && x.[0] = '$' -> (DStr (cps_of_tok (sub1 x)), r)
